@@ -150,7 +150,10 @@ def gen_script(ctx, W, t, n, plan_hint, plan_det=True):
         elif k == 8:
             c = G.gen_call(t, W.D, W.P)
             if c:
-                ops.append({"kind": "ground", "call": c})
+                if t.chance(1, 3):
+                    ops.append({"kind": "typed_call", "call": c, "how": t.draw(2)})
+                else:
+                    ops.append({"kind": "ground", "call": c})
         elif k == 9:
             ops.append({"kind": "print_action", "action": t.pick(sorted(W.D["actions"])), "how": t.draw(3)})
         elif k == 10:
@@ -315,6 +318,14 @@ def exec_op(env, ops, i, store):
         op = lib.Operator(d.actions[o["call"][0]], d, list(o["call"][1]), p.objects)
         try:
             return ("bool", bool(op.is_applicable(st)))
+        except schedmod.SimCancel:
+            raise
+        except Exception as e:
+            return ("exc", type(e).__name__)
+    if k == "typed_call":
+        op = lib.Operator(d.actions[o["call"][0]], d, list(o["call"][1]), p.objects if o["how"] else None)
+        try:
+            return ("text", str(op) + " " + op.typed_action_call)
         except schedmod.SimCancel:
             raise
         except Exception as e:
